@@ -90,12 +90,49 @@ def _concretize_index(k):
     return k
 
 
+# opaque tokens standing for symbolic scalars in text files (C16): tofile writes one token per element in the
+# element order numpy's tofile uses (C order), fromfile / string assignment read them back
+TOKENS = {}
+
+
+def token_of(v, fmt="%s"):
+    if isinstance(v, _SYM):
+        t = f"@S{len(TOKENS)}@"
+        TOKENS[t] = v
+        return t
+    if isinstance(v, (float, np.floating)):
+        return fmt % float(v)
+    if isinstance(v, (int, np.integer)):
+        return (fmt % int(v)) if "d" in fmt else (fmt % float(v))
+    return str(v)
+
+
+def parse_token(t):
+    if t in TOKENS:
+        return TOKENS[t]
+    return float(t)
+
+
+def write_tokens(fid, values, sep, fmt):
+    fid.write(sep.join(token_of(v, fmt) for v in values))
+
+
 class SA(np.ndarray):
     def __getitem__(self, key):
-        return _ND_GET(self, _concretize_index(key))
+        r = _ND_GET(self, _concretize_index(key))
+        if type(r) is float:
+            return np.float64(r)  # element access of a float array yields a numpy scalar
+        return r
+
+    def tofile(self, fid, sep="", format="%s"):
+        if sep == "":
+            raise Unmodelled("binary tofile")
+        write_tokens(fid, np.ndarray.ravel(self.view(np.ndarray), order="C").tolist(), sep, format)
 
     def __setitem__(self, key, value):
         key = _concretize_index(key)
+        if isinstance(value, str) and self.dtype == object:
+            value = parse_token(value)  # float arrays convert strings on assignment
         if isinstance(value, np.ndarray) and value.size == 1 and self.dtype == object and value.ndim > 0:
             try:
                 tgt = _ND_GET(self.view(np.ndarray), key)
@@ -853,6 +890,35 @@ def _mean(a, axis=None, **kw):
 
 fac.mean = _mean
 fac.average = _mean
+def _fromfile(file, dtype=builtins.float, count=-1, sep="", **kw):
+    if sep == "":
+        raise Unmodelled("binary fromfile")
+    pos = file.tell()
+    rest = file.read()
+    toks, consumed, i, n = [], 0, 0, len(rest)
+    while i < n and (count < 0 or len(toks) < count):
+        while i < n and rest[i].isspace():
+            i += 1
+        j = i
+        while j < n and not rest[j].isspace():
+            j += 1
+        if j > i:
+            try:
+                toks.append(parse_token(rest[i:j]))
+            except ValueError:
+                break
+            consumed = j
+        i = j
+    # like numpy's text reader, swallow the separator (any whitespace) after the last item read
+    while consumed < n and rest[consumed].isspace():
+        consumed += 1
+    file.seek(pos + consumed)
+    if any(isinstance(t, _SYM) for t in toks):
+        return obj_array(toks)
+    return obj_array(toks) if toks else np.array([], dtype=builtins.float)
+
+
+fac.fromfile = _fromfile
 fac.finfo = np.finfo
 fac.iinfo = np.iinfo
 fac.dtype = np.dtype
